@@ -16,7 +16,12 @@ import (
 func VerifC20MockTyping() {
 	w := c12NewWorld()
 	resp := verif.NewMessage("acme.v1", "Resp")
-	_, a := c12SymField(w, resp, "f1", "f1", "F1", 1, &descriptorpb.FieldOptions{})
+	f1, a := c12SymField(w, resp, "f1", "f1", "F1", 1, &descriptorpb.FieldOptions{})
+	if a.optional && verif.Bool("f1.proto2Optional") {
+		// a proto2 optional field: the keyword (and a pointer Go type) without a synthetic oneof
+		f1.Oneof = nil
+		f1.Desc.(*verif.FieldDesc).FOneof = nil
+	}
 	req := verif.NewMessage("acme.v1", "Req")
 	verif.AddField(req, &verif.FieldDesc{FName: "id", FJSON: "id", FKind: protoreflect.StringKind, FNumber: 1, FOpts: &descriptorpb.FieldOptions{}}, "Id")
 	svc := verif.NewService("acme.v1", "MockedService", &descriptorpb.ServiceOptions{})
